@@ -159,6 +159,17 @@ func boundaryCases() []GCase {
 			})})
 		}
 	}
+	// the retained history holds an unperformed proposal coordinated on block 110 (since orphaned, or reported by
+	// oracles that ran ahead); this round's observations share blocks up to 100 only: the new proposal is bound to 100,
+	// the block f+1 of THIS round's observations list, never to a block taken from the history
+	for _, histBlk := range []uint64{110, 101} {
+		histBlk := histBlk
+		add(GCase{Family: "history-coordinated-on-a-higher-block-than-this-round", N: 4, F: 1, Seq: 13, Digest: 1, PrevKind: 2,
+			Prev: &GOutcome{Surf: [][]GProp{{}, {{Kind: 1, Upk: 5400, Log: 12, Blk: histBlk, Hash: 77, ExtBlk: 3}}}},
+			Obs: nObs(4, func(i int) GObs {
+				return obsWith(nil, []GProp{{Kind: 1, Upk: 5401, Log: 13, Blk: 1, Hash: 1, ExtBlk: 3}}, chain(95, 100, 1))
+			})})
+	}
 	// perform data far above what a registry accepts: three disjoint pairs of oracles vouch for ten results of 70 KB
 	// each; every observation is valid and under its size limit, all thirty results are at quorum and far below the cap
 	// of 100 - agreement is by votes, never by a byte budget
